@@ -182,9 +182,15 @@ def build_and_run(base, out, linker, sel, cells, tag):
         cmd = [os.path.join(wd, "driver")]
     common = None
     try:
-        for s in elfread.Elf(output).symbols(".symtab"):
+        elf = elfread.Elf(output)
+        for s in elf.symbols(".symtab"):
             if s.name == "common" and s.shndx != 0:
                 common = s.value
+        if out not in ("static", "static-pie"):
+            poison = R.poison_cells(elf)
+            if poison:
+                res["poison"] = poison
+                return res
     except Exception as ex:            # noqa: BLE001
         res["symtab_error"] = str(ex)
     variants = ["-"] if out in ("static", "static-pie") else (["so_wild", "so_ld"] if linker == "wild" else ["so_ld"])
@@ -218,6 +224,15 @@ def link_and_run_job(job):
         if merged["argv"] is None:
             merged["argv"] = r["argv"]
         err = r["link_error"]
+        if r.get("poison"):
+            named = {i for i, t in r["poison"] if i in sub}
+            if named:
+                for i, t in r["poison"]:
+                    if i in named:
+                        merged["dead"][i] = f"output carries dynamic relocation {t}, which ld.so does not support"
+                go([i for i in sub if i not in named])
+                return
+            err = f"unsupported dynamic relocations not attributable to a probe: {r['poison'][:3]}"
         if not err:
             for sv, run in r["runs"].items():
                 if run["error"]:
